@@ -14,6 +14,7 @@
    Locations: per-log fields guarded by l.mu, the write buffer's fields (guarded by
    l.mu and buffer.mu), the cache's list/map/size, every cache buffer ever allocated
    (handed-out slices alias them), the handler's partition-log map. *)
+From Coq Require Import String.
 From KS Require Import lib.Base lib.Strings model.Cache.
 Open Scope Z_scope.
 
@@ -67,6 +68,11 @@ Record state := mkSt {
 }.
 
 Definition init (cap : Z) : state := mkSt (new_cache cap) [] [] [].
+
+(* "cold" initial states: the logs in [pubs] are already published (constructed, or
+   rebuilt by RestoreFromS3) and nothing has run on them yet -- every thread's first
+   operation on such a log is concurrent with every other thread's first operation *)
+Definition init_cold (cap : Z) (pubs : list Z) : state := mkSt (new_cache cap) [] pubs [].
 
 Definition published (s : state) (l : Z) : bool := existsb (Z.eqb l) (st_pub s).
 Fixpoint creator_of (cs : list (Z * Z)) (l : Z) : option Z :=
@@ -129,3 +135,64 @@ Definition conflict (f1 f2 : list loc * list loc * list lock) : bool :=
   existsb (fun x => mem_loc x r2 || mem_loc x w2) w1 || existsb (fun x => mem_loc x r1) w2.
 Definition common_lock (f1 f2 : list loc * list loc * list lock) : bool :=
   existsb (fun k => existsb (lock_eqb k) (snd f2)) (snd f1).
+
+(* ------------------------------------------------------------------ field table *)
+(* Every field of the structs on the data path, with what protects it.  The harness
+   compares this table with the structs' field lists obtained by reflection: a field
+   the code has and the table lacks is an unannotated shared location (e.g. a lazily
+   initialised cache written on first use) and fails the correspondence.
+   GConst  = written only during construction, before the object is shared (for a
+             PartitionLog: before publication; RestoreFromS3 included), read-only after;
+   GSync   = a synchronisation object (mutex, cond, semaphore, single-flight group);
+   GOwn    = pointer/interface to an object with its own internal synchronisation,
+             the field itself is GConst;
+   G<lock> = read and written only while holding that lock (the steps' footprints
+             use the location of that class: LLog / LBuffer / LCache / LMap);
+   GUnguarded = written after construction without a lock: NOT allowed (C41_fields_guarded). *)
+Inductive guard := GConst | GSync | GOwn | GMu | GBufMu | GCacheMu | GLogMapMu | GAuthLogMu | GUnguarded.
+
+Definition field_table : list (string * string * guard) := [
+  ("PartitionLog", "namespace", GConst); ("PartitionLog", "topic", GConst); ("PartitionLog", "partition", GConst);
+  ("PartitionLog", "s3", GOwn); ("PartitionLog", "cache", GOwn); ("PartitionLog", "cfg", GConst);
+  ("PartitionLog", "buffer", GOwn); ("PartitionLog", "nextOffset", GMu); ("PartitionLog", "onFlush", GConst);
+  ("PartitionLog", "onS3Op", GConst); ("PartitionLog", "segments", GMu); ("PartitionLog", "indexEntries", GMu);
+  ("PartitionLog", "prefetchMu", GSync); ("PartitionLog", "mu", GSync); ("PartitionLog", "flushCond", GSync);
+  ("PartitionLog", "s3sem", GSync); ("PartitionLog", "flushing", GMu); ("PartitionLog", "flushingBatches", GMu);
+  ("WriteBuffer", "cfg", GConst); ("WriteBuffer", "mu", GSync); ("WriteBuffer", "batches", GBufMu);
+  ("WriteBuffer", "sizeBytes", GBufMu); ("WriteBuffer", "messageCount", GBufMu); ("WriteBuffer", "lastFlush", GBufMu);
+  ("SegmentCache", "mu", GSync); ("SegmentCache", "capacity", GConst); ("SegmentCache", "size", GCacheMu);
+  ("SegmentCache", "ll", GCacheMu); ("SegmentCache", "items", GCacheMu);
+  ("handler", "apiVersions", GConst); ("handler", "store", GOwn); ("handler", "s3", GOwn); ("handler", "cache", GOwn);
+  ("handler", "logs", GLogMapMu); ("handler", "logMu", GSync); ("handler", "logInit", GSync); ("handler", "logConfig", GConst);
+  ("handler", "coordinator", GOwn); ("handler", "leaseManager", GOwn); ("handler", "groupLeaseManager", GOwn);
+  ("handler", "s3Health", GOwn); ("handler", "s3Namespace", GConst); ("handler", "brokerInfo", GConst);
+  ("handler", "logger", GOwn); ("handler", "autoCreateTopics", GConst); ("handler", "autoCreatePartitions", GConst);
+  ("handler", "allowAdminAPIs", GConst); ("handler", "traceKafka", GConst); ("handler", "produceRate", GOwn);
+  ("handler", "fetchRate", GOwn); ("handler", "produceLatency", GOwn); ("handler", "consumerLag", GOwn);
+  ("handler", "startTime", GConst); ("handler", "cpuTracker", GOwn); ("handler", "cacheSize", GConst);
+  ("handler", "readAhead", GConst); ("handler", "segmentBytes", GConst); ("handler", "flushInterval", GConst);
+  ("handler", "flushOnAck", GConst); ("handler", "adminMetrics", GOwn); ("handler", "authorizer", GOwn);
+  ("handler", "authMetrics", GOwn); ("handler", "authLogMu", GSync); ("handler", "authLogLast", GAuthLogMu);
+  ("handler", "s3sem", GSync)
+]%string.
+
+Definition fields_of (st : string) : list string :=
+  map (fun e => snd (fst e)) (filter (fun e => String.eqb (fst (fst e)) st) field_table).
+
+Definition is_unguarded (g : guard) : bool := match g with GUnguarded => true | _ => false end.
+
+(* the location class and lock of a lock-guarded field (for log 0 / the shared cache / map) *)
+Definition guard_loc (g : guard) (l : Z) : option (loc * lock) :=
+  match g with
+  | GMu => Some (LLog l, KMu l)
+  | GBufMu => Some (LBuffer l, KBufMu l)
+  | GCacheMu => Some (LCache, KCache)
+  | GLogMapMu => Some (LMap, KMap)
+  | _ => None
+  end.
+
+Definition touches (s : state) (a : act) (x : loc) : bool :=
+  let '(r, w, _) := footprint s a in mem_loc x r || mem_loc x w.
+Definition holds_lock (s : state) (a : act) (k : lock) : bool :=
+  existsb (lock_eqb k) (snd (footprint s a)).
+Definition is_init (a : act) : bool := match a with AInit _ => true | _ => false end.
